@@ -194,6 +194,13 @@ func scenarios(seed uint64, full bool) []Scen {
 											sc.Ins.T = []int{pat.t}
 										}
 										out = append(out, sc)
+										// the concrete-typed twin (NEG, ADD, ..., LOGADD) where all arguments are magic
+										if concTwin[op.name] && pat.a != rB && (op.ar == 1 || pat.b != rB) && rv == "fresh" {
+											cc := sc
+											cc.Pat = sc.Pat + ",concrete"
+											cc.Ins.Conc = true
+											out = append(out, cc)
+										}
 									}
 								}
 							}
@@ -519,6 +526,9 @@ func (s *Scen) site() string {
 	usesTmpAlias := len(s.Ins.T) > 0 && (s.Ins.T[0] == s.Ins.A || (arity(s.Op) == 2 && s.Ins.T[0] == s.Ins.B))
 	if usesTmpAlias {
 		return "tmp-alias:" + s.Op + ":" + s.Pat
+	}
+	if s.Op == "Abs" && s.Ins.Conc {
+		return "ABS(concrete)" // tests the receiver's sign: known finding F-ABSC of C01
 	}
 	if s.Op == "Abs" && x.Val == 0 {
 		return "Abs:v=0" // c.Reset() keeps the receiver's Order and N, with or without aliasing
